@@ -47,8 +47,8 @@ def plan(tier, seed):
 
 def floors(tier):
     strata = ["%s/%s/%s" % (a, b, c) for a in SHAPES for b in WCLASS for c in SCLASS] + ["cyclic", "insitu-layer", "fixtures"]
-    return {"evaluations": 5000, "strata": strata,
-            "events": {"Solver.solve": 5000, "block_invariant": 5000},
+    return {"evaluations": 2000, "strata": strata,
+            "events": {"Solver.solve": 2000, "block_invariant": 2000},
             "paths": ["vpsc.split", "vpsc.splitBetween", "vpsc.cycle-flag", "vpsc.merge-left-larger", "vpsc.merge-right-larger"],
             "distinct_nontrivial": 1000, "max_inconclusive_frac": 0.01}
 
